@@ -35,12 +35,13 @@ const (
 	QLocate                  // index: Iterator().LocatePoint / LocateCellID
 	QMisc                    // Loop/Polygon: Area, Centroid, TurningAngle, NumEdges, edges, Validate; index: shapes' reference points, End()/Prev walk
 	QBounds                  // Loop/Polygon: RectBound, CapBound, CellUnionBound
+	QMember                  // a loop reached through a shared polygon (Polygon.Loop(i)) or a Loop/Polygon reached through a shared index (Shape(id)), queried directly: it has a lazily built index of its own
 	NumQKinds
 )
 
 var qNames = [...]string{"ContainsPoint", "ContainsCell", "IntersectsCell", "Contains", "Intersects",
 	"ContainingShapes", "ShapeContains", "Crossings", "CrossingsEdgeMap", "FindEdges", "Distance",
-	"IsDistanceLess", "IsConservativeDistance", "WalkCells", "RegionBound", "Build", "NumEdges", "Locate", "Misc", "Bounds"}
+	"IsDistanceLess", "IsConservativeDistance", "WalkCells", "RegionBound", "Build", "NumEdges", "Locate", "Misc", "Bounds", "Member"}
 
 // target kinds
 const (
@@ -189,6 +190,8 @@ func (op *Op) String() string {
 		s += "," + op.Cell.Cell().ID().String()
 	case QContainingShapes, QShapeContains, QContainsPoint:
 		s += fmt.Sprintf(",model=%d", int(op.Model))
+	case QMember:
+		s += fmt.Sprintf(",member=%d,%s", op.ShapeID, op.Cell.Cell().ID().String())
 	}
 	if op.Reuse >= 0 {
 		s += fmt.Sprintf(",reuse=q%d", op.Reuse)
@@ -504,6 +507,40 @@ func execQuery(world []*Obj, op *Op, qs *Queries) Ans {
 	case QIsFreshNumEdges:
 		_ = o.Index.IsFresh()
 		return Ans{uint64(o.Index.NumEdges()), uint64(o.Index.Len())}
+	case QMember:
+		memberLoop := func(l *s2.Loop) Ans {
+			c := op.Cell.Cell()
+			return Ans{1, uint64(l.NumVertices()), b2u(l.IsHole()), b2u(l.ContainsPoint(op.P)), b2u(l.ContainsPoint(op.Q)),
+				b2u(l.ContainsCell(c)), b2u(l.IntersectsCell(c))}
+		}
+		memberPoly := func(p *s2.Polygon) Ans {
+			a := Ans{4, uint64(p.NumLoops()), b2u(p.ContainsPoint(op.P)), b2u(p.ContainsPoint(op.Q))}
+			if n := p.NumLoops(); n > 0 {
+				a = append(a, memberLoop(p.Loop(op.ShapeID%n))...)
+			}
+			return a
+		}
+		switch o.Kind {
+		case OLoop:
+			return memberLoop(o.Loop)
+		case OPolygon:
+			n := o.Poly.NumLoops()
+			if n == 0 {
+				return Ans{0}
+			}
+			return memberLoop(o.Poly.Loop(op.ShapeID % n))
+		default:
+			switch sh := o.Index.Shape(int32(op.ShapeID)).(type) {
+			case nil:
+				return Ans{2}
+			case *s2.Loop:
+				return memberLoop(sh)
+			case *s2.Polygon:
+				return memberPoly(sh)
+			default:
+				return Ans{3, uint64(sh.NumEdges())}
+			}
+		}
 	case QMisc:
 		switch o.Kind {
 		case OLoop:
@@ -703,7 +740,7 @@ func drawEQOpts(g *gen.G) EQOpts {
 var indexKinds = []struct{ kind, weight int }{
 	{QContainsPoint, 2}, {QContainingShapes, 1}, {QShapeContains, 1}, {QCrossings, 1}, {QCrossingsMap, 1},
 	{QFindEdges, 3}, {QDistance, 1}, {QIsDistLess, 1}, {QIsConsDist, 1}, {QWalk, 1}, {QRegionBound, 1},
-	{QBuild, 1}, {QLocate, 1}, {QIsFreshNumEdges, 1}, {QMisc, 1},
+	{QBuild, 1}, {QLocate, 1}, {QIsFreshNumEdges, 1}, {QMisc, 1}, {QMember, 1},
 }
 
 // kindMask: bit i set = indexKinds[i] disabled for this run. 0 = everything enabled.
@@ -776,6 +813,10 @@ func drawQuery(g *gen.G, descs []*ObjDesc, allowRel bool) Op {
 			op.Kind = QIntersectsCell
 		case k < 7:
 			op.Kind = QMisc
+			if d.Kind == OPolygon && t.Chance(500) {
+				op.Kind = QMember
+				op.ShapeID = int(t.Uint(24))
+			}
 		case k < 8:
 			op.Kind = QBounds
 		default:
